@@ -56,7 +56,6 @@ func IDs() []string {
 // the reason (DESIGN.md section 6). Properties that are neither registered nor
 // listed here are reported as "no check built yet".
 var NotApplicable = map[string]string{
-	"C04": "minimisation over runtime counters (connections/weight); the only code shape is the cross-multiplication comparator, and a rule pinning that expression would also fire on a behaviour-preserving rewrite; eligibility filtering is decided under C03",
 	"C30": "HPACK encode/decode round-trip equality and eviction arithmetic over histories of byte strings; no shape-level necessary condition beyond those claimed under C31",
 	"C43": "removePadding is branch-free mask arithmetic over byte values; its correctness is purely numerical (concrete or symbolic evaluation, a different technique family)",
 	"C53": "quantifies over wall-clock timing of counters (threshold within CheckPeriod, StayPeriod); the code shape does not determine it",
